@@ -717,7 +717,10 @@ class _BaseWindowForecaster(_SktimeForecaster):
 
         # generate cutoffs from forecasting horizon, note that cutoffs are
         # still based on integer indexes, so that they can be used with .iloc
-        cutoffs = fh.to_relative(self.cutoff) + len(y_train) - 2
+        # (counted from the position of the cutoff, which is not the end of the
+        # remembered series after `update_predict`)
+        n_until_cutoff = int((y_train.index <= self.cutoff).sum())
+        cutoffs = fh.to_relative(self.cutoff) + n_until_cutoff - 2
         cv = CutoffSplitter(cutoffs, fh=1, window_length=self.window_length_)
         return self._predict_moving_cutoff(
             y_train,
